@@ -199,6 +199,7 @@ def decFnKind : Sx → FnKind
     .host (exts.filterMap (fun e => match e with | .atom a => some (decExtractor a) | _ => none))
       (match body with
        | .atom "fail" => .fail
+       | .atom "first" => .first
        | .list [.atom "const", v] => .const (decValue v)
        | _ => .echo)
   | _ => .host [] .echo
